@@ -19,12 +19,19 @@
 (*    is the named deviation Dev_S3 (known finding S3); `devS3` records    *)
 (*    that it was taken, and the convergence invariants are demanded of    *)
 (*    all behaviours that did not need it.                                 *)
+(*  - Pre samples were written before the reader was matched and the reader *)
+(*    does not request history (a Volatile late joiner): the writer owes it *)
+(*    a GAP for them (pending_gap, wGap), sent in answer to the reader's    *)
+(*    first ACKNACK and again by the repair timer, and the reader must end  *)
+(*    up knowing them as unavailable - also when the first sample written   *)
+(*    after the match overtakes that GAP.                                   *)
 (* The scheduling of micro-steps is the one of the `link` driver, so every *)
 (* behaviour (writes, rounds, content-addressed faults) replays 1:1.       *)
 (***************************************************************************)
 EXTENDS Integers, Sequences, FiniteSets, TLC, Json, SequencesExt
 
-CONSTANTS NSamples,     \* samples 1..NSamples are written
+CONSTANTS Pre,          \* samples 1..Pre exist before the match and are not owed to the reader
+          NSamples,     \* samples Pre+1..Pre+NSamples are written after the match
           FragSNs,      \* samples sent as NF fragments
           NF,
           MaxFaults,
@@ -34,7 +41,7 @@ CONSTANTS NSamples,     \* samples 1..NSamples are written
 
 VARIABLES
   \* writer
-  wlast, wUns, wAck, wRep, wFr, hbc,
+  wlast, wUns, wAck, wRep, wFr, wGap, hbc,
   \* reader
   ab, chg, asm, rhb, sac,
   \* network
@@ -45,7 +52,7 @@ VARIABLES
   devS3,
   acts, faults   \* trail for replay
 
-vars == <<wlast, wUns, wAck, wRep, wFr, hbc, ab, chg, asm, rhb, sac, wrQ, rwQ, seen, mode,
+vars == <<wlast, wUns, wAck, wRep, wFr, wGap, hbc, ab, chg, asm, rhb, sac, wrQ, rwQ, seen, mode,
           faultsLeft, roundFaults, roundTraffic, clean, lastTraffic, rounds, devS3, acts, faults>>
 
 Lt(a, b) == a < b
@@ -54,7 +61,7 @@ RECURSIVE Adv(_, _)
 Adv(n, S) == IF n \in S THEN Adv(n + 1, S) ELSE n
 
 Init ==
-  /\ wlast = 0 /\ wUns = {} /\ wAck = 0 /\ wRep = FALSE /\ wFr = {} /\ hbc = 1
+  /\ wlast = Pre /\ wUns = {} /\ wAck = 0 /\ wRep = FALSE /\ wFr = {} /\ wGap = 1..Pre /\ hbc = 1
   /\ ab = 1 /\ chg = {} /\ asm = <<>> /\ rhb = 0 /\ sac = 0
   /\ wrQ = <<>> /\ rwQ = <<>> /\ seen = <<>>
   /\ mode = "env"
@@ -69,10 +76,11 @@ HbMsg(last, count) == [k |-> "HB", sn |-> last, f |-> 0, last |-> last, count |-
 AckMsg(base, set) == [k |-> "ACKNACK", sn |-> base, f |-> 0, base |-> base, set |-> set]
 NfMsg(sn) == [k |-> "NACKFRAG", sn |-> sn, f |-> 0]
 AllFrags(sn) == [i \in 1..NF |-> FragMsg(sn, i)]
+GapMsg(set) == [k |-> "GAP", sn |-> LMin(set), f |-> 0, set |-> set]
 
 (* ------------------------------------------------------------- env steps *)
 Write ==
-  /\ mode = "env" /\ wlast < NSamples
+  /\ mode = "env" /\ wlast < Pre + NSamples
   /\ LET sn == wlast + 1 IN
        /\ wlast' = sn
        /\ wUns' = wUns \cup {sn}
@@ -83,7 +91,7 @@ Write ==
        /\ acts' = Append(acts, [a |-> "Write", big |-> (sn \in FragSNs)])
   /\ mode' = "drainW"
   /\ clean' = 0          \* new data: convergence is owed again
-  /\ UNCHANGED <<wAck, wRep, wFr, ab, chg, asm, rhb, sac, rwQ, seen, faultsLeft, roundFaults, roundTraffic,
+  /\ UNCHANGED <<wAck, wRep, wFr, wGap, ab, chg, asm, rhb, sac, rwQ, seen, faultsLeft, roundFaults, roundTraffic,
                  lastTraffic, rounds, devS3, faults>>
 
 RoundStart ==
@@ -94,7 +102,7 @@ RoundStart ==
   /\ mode' = "drain1"
   /\ roundFaults' = 0 /\ roundTraffic' = 0
   /\ acts' = Append(acts, [a |-> "Round"])
-  /\ UNCHANGED <<wlast, wUns, wAck, wRep, wFr, ab, chg, asm, rhb, sac, rwQ, seen, faultsLeft, clean, lastTraffic,
+  /\ UNCHANGED <<wlast, wUns, wAck, wRep, wFr, wGap, ab, chg, asm, rhb, sac, rwQ, seen, faultsLeft, clean, lastTraffic,
                  rounds, devS3, faults>>
 
 (* --------------------------------------------------------- reader reacts *)
@@ -127,6 +135,11 @@ ReaderGets(m) ==
                     ELSE [x \in DOMAIN asm \cup {m.sn} |-> IF x = m.sn THEN sn2 ELSE asm[x]]
           /\ ab' = r1[1] /\ chg' = r1[2]
           /\ UNCHANGED <<rhb, rwQ>>
+  ELSE IF m.k = "GAP" THEN                 \* irrelevant_changes_range / set_irrelevant_change, then advance
+       LET c2 == chg \cup {g \in m.set : g >= ab} IN
+          /\ chg' = c2 /\ ab' = Adv(ab, c2)
+          /\ asm' = [x \in DOMAIN asm \ m.set |-> asm[x]]
+          /\ UNCHANGED <<rhb, rwQ>>
   ELSE \* HB
        LET fresh == m.count > rhb IN
           /\ rhb' = IF fresh THEN m.count ELSE rhb
@@ -138,12 +151,15 @@ WriterGets(m) ==
   IF m.k = "ACKNACK" THEN
        LET b == IF m.base < 1 THEN 1 ELSE m.base
            u == {x \in ({y \in wUns : y >= b} \cup m.set) : x <= wlast}
+           g == {x \in wGap : x >= b}               \* an ACKNACK also clears the pending GAP below its base ...
        IN /\ wUns' = u /\ wAck' = b /\ wRep' = ~(b > wlast)
+          /\ wGap' = g
+          /\ wrQ' = IF g # {} THEN Append(wrQ, GapMsg(g)) ELSE wrQ    \* ... and what is left of it is sent at once
           /\ UNCHANGED devS3
   ELSE \* NACKFRAG: discarded by the MessageReceiver.  Dev_S3: if nothing else makes the writer
        \* resend that sample, the reader's request is lost.
        /\ devS3' = (devS3 \/ m.sn \notin wUns)
-       /\ UNCHANGED <<wUns, wAck, wRep>>
+       /\ UNCHANGED <<wUns, wAck, wRep, wGap, wrQ>>
 
 (* ------------------------------------------------------ network delivery *)
 Key(dir, m) == <<dir, m.k, m.sn, m.f>>
@@ -167,10 +183,10 @@ Deliver(fate) ==
              THEN /\ wrQ' = Tail(wrQ)
                   /\ IF fate = "drop" THEN UNCHANGED <<ab, chg, asm, rhb, rwQ>>
                      ELSE ReaderGets(m)       \* a duplicate is idempotent for DATA / FRAG / HB (same count)
-                  /\ UNCHANGED <<wUns, wAck, wRep, devS3>>
+                  /\ UNCHANGED <<wUns, wAck, wRep, devS3, wGap>>
              ELSE /\ rwQ' = Tail(rwQ)
-                  /\ IF fate = "drop" THEN UNCHANGED <<wUns, wAck, wRep, devS3>> ELSE WriterGets(m)
-                  /\ UNCHANGED <<ab, chg, asm, rhb, wrQ>>
+                  /\ IF fate = "drop" THEN UNCHANGED <<wUns, wAck, wRep, devS3, wGap, wrQ>> ELSE WriterGets(m)
+                  /\ UNCHANGED <<ab, chg, asm, rhb>>
   /\ UNCHANGED <<wlast, wFr, hbc, sac, mode, clean, lastTraffic, rounds, acts>>
 
 \* queues drained: next phase
@@ -182,7 +198,7 @@ Drained ==
         /\ clean' = IF roundFaults = 0 THEN clean + 1 ELSE 0
         /\ lastTraffic' = roundTraffic
         /\ rounds' = rounds + 1
-  /\ UNCHANGED <<wlast, wUns, wAck, wRep, wFr, hbc, ab, chg, asm, rhb, sac, wrQ, rwQ, seen, faultsLeft,
+  /\ UNCHANGED <<wlast, wUns, wAck, wRep, wFr, wGap, hbc, ab, chg, asm, rhb, sac, wrQ, rwQ, seen, faultsLeft,
                  roundFaults, roundTraffic, devS3, acts, faults>>
 
 (* ---------------------------------------------------------- repair timers *)
@@ -191,18 +207,20 @@ Fire ==
   /\ mode = "fire"
   /\ IF ~wRep /\ wFr = {} THEN /\ mode' = "drain2"
                                /\ UNCHANGED <<wUns, wRep, wFr, wrQ>>
-     ELSE LET u == LMin(wUns)
-              sendData == wRep /\ wUns # {}
-              q1 == IF sendData THEN (IF u \in FragSNs THEN AllFrags(u) ELSE <<DataMsg(u, FALSE)>>) ELSE <<>>
+     ELSE LET u == IF wUns = {} THEN 0 ELSE LMin(wUns)
+              viaGap == wRep /\ wUns # {} /\ u \in wGap        \* the lowest unsent number is not owed: GAP for all of them
+              sendData == wRep /\ wUns # {} /\ ~viaGap
+              q1 == IF viaGap THEN <<GapMsg(wGap)>>
+                    ELSE IF sendData THEN (IF u \in FragSNs THEN AllFrags(u) ELSE <<DataMsg(u, FALSE)>>) ELSE <<>>
               fr1 == IF sendData /\ u \in FragSNs THEN wFr \cup {u} ELSE wFr
               \* SendRepairFrags: all requested fragments of the lowest requested sample
               q2 == IF fr1 # {} THEN AllFrags(LMin(fr1)) ELSE <<>>
-          IN /\ wUns' = IF sendData THEN wUns \ {u} ELSE wUns
+          IN /\ wUns' = IF viaGap THEN wUns \ wGap ELSE IF sendData THEN wUns \ {u} ELSE wUns
              /\ wRep' = IF wRep /\ wUns = {} THEN FALSE ELSE wRep
              /\ wFr' = IF fr1 # {} THEN fr1 \ {LMin(fr1)} ELSE fr1
              /\ wrQ' = wrQ \o q1 \o q2
              /\ UNCHANGED mode
-  /\ UNCHANGED <<wlast, wAck, hbc, ab, chg, asm, rhb, sac, rwQ, seen, faultsLeft, roundFaults, roundTraffic, clean,
+  /\ UNCHANGED <<wlast, wAck, wGap, hbc, ab, chg, asm, rhb, sac, rwQ, seen, faultsLeft, roundFaults, roundTraffic, clean,
                  lastTraffic, rounds, devS3, acts, faults>>
 
 Next ==
@@ -215,14 +233,16 @@ Spec == Init /\ [][Next]_vars
 Converged == ab = wlast + 1 /\ wAck = wlast + 1
 Inv_Converge == (mode = "env" /\ clean >= K) => (Converged \/ devS3)
 Inv_Quiet    == (mode = "env" /\ clean >= K + 1) => (lastTraffic = 0 \/ devS3)
+\* the reader never believes a sample unavailable that the writer owes it
+Inv_GapOnlyNotOwed == \A x \in chg : x > Pre \/ x \in 1..Pre
 \* the deviation is really reachable only through a lost fragment (vacuity guard for devS3)
 Inv_DevNeedsFragments == devS3 => FragSNs # {}
 \* (sanity only, expected to be violated: without the named deviation the property does not hold)
 Inv_ConvergeStrict == (mode = "env" /\ clean >= K) => Converged
 
-View == <<wlast, wUns, wAck, wRep, wFr, hbc, ab, chg, asm, rhb, wrQ, rwQ, seen, mode, faultsLeft, roundFaults,
+View == <<wlast, wUns, wAck, wRep, wFr, wGap, hbc, ab, chg, asm, rhb, wrQ, rwQ, seen, mode, faultsLeft, roundFaults,
           roundTraffic, clean, lastTraffic, rounds, devS3>>
 
 GenEdge == (GenK > 0 /\ mode' = "env" /\ mode # "env" /\ RandomElement(1..GenK) = 1) =>
-             PrintT("REPLAY " \o ToJson([hist |-> 0, frag |-> 64, acts |-> acts', faults |-> faults', rounds_after |-> K + 2]))
+             PrintT("REPLAY " \o ToJson([hist |-> 0, frag |-> 64, pre |-> Pre, acts |-> acts', faults |-> faults', rounds_after |-> K + 2]))
 ==========================================================================
